@@ -459,6 +459,59 @@ pub fn tdd(args: &Args) {
             s.finish();
         }
     }
+    // three variables, every order (the rotations are the orders whose variable -> level map is
+    // not its own inverse): random operations, reorderings in between
+    for hist in 0..(if thorough { 180 } else { 30 }) {
+        let mut s: MvSession<TDDFunction> = MvSession::new(&mut out, [1usize, 4, 256][rng.below(3)], 3);
+        let orders: [[u32; 3]; 6] = [[0, 1, 2], [1, 2, 0], [2, 0, 1], [0, 2, 1], [1, 0, 2], [2, 1, 0]];
+        let first = orders[hist % 6];
+        s.reorder_and_check(&first, |mref, p| {
+            mref.with_manager_exclusive(|m| catch(|| oxidd_reorder::set_var_order(m, p)))
+        });
+        tdd_base(&mut s);
+        for _ in 0..(if thorough { 40 } else { 24 }) {
+            if s.dead {
+                break;
+            }
+            let live = s.live();
+            let a = live[rng.below(live.len())];
+            let b = live[rng.below(live.len())];
+            let c = live[rng.below(live.len())];
+            cases += 1;
+            match rng.below(12) {
+                0 => {
+                    let r = catch(|| s.get(a).not());
+                    s.log("not", &[a], json!({}), r);
+                }
+                1 | 2 => {
+                    let r = catch(|| s.get(a).ite(s.get(b), s.get(c)));
+                    s.log("ite", &[a, b, c], json!({}), r);
+                }
+                3 => tdd_cofactors(&mut s, a),
+                4 => {
+                    if live.len() > 8 {
+                        s.drop_h(a);
+                        s.gc();
+                    }
+                }
+                5 => {
+                    let p = orders[rng.below(6)];
+                    s.reorder_and_check(&p, |mref, p| {
+                        mref.with_manager_exclusive(|m| catch(|| oxidd_reorder::set_var_order(m, p)))
+                    });
+                }
+                _ => {
+                    let op = TBIN[rng.below(8)];
+                    let r = catch(|| tdd_bin(op, s.get(a), s.get(b)));
+                    s.log(op, &[a, b], json!({}), r);
+                }
+            }
+        }
+        if !s.dead {
+            s.obs();
+            s.finish();
+        }
+    }
     out.finish();
     write_summary(&dir, "mv-tdd", &out, json!({"rows":cases,"nontrivial":cases}));
 }
@@ -589,7 +642,7 @@ pub fn mtbdd(args: &Args) {
     // different operators on the same operands with a 1-bucket cache
     let rounds = if thorough { 200 } else { 30 };
     for round in 0..rounds {
-        let n = 1 + (round % 2) as u32;
+        let n = 1 + (round % 3) as u32;
         let cache = [1usize, 1, 2, 64][rng.below(4)];
         let mut s: MvSession<MT> = MvSession::new(&mut out, cache, n);
         let vars: Vec<usize> = (0..n).filter_map(|v| mt_var(&mut s, v)).collect();
@@ -623,7 +676,23 @@ pub fn mtbdd(args: &Args) {
                 }
             }
         }
-        // restrict by literal cubes (0-1-valued products of x and 1 - x)
+        // restrict by literal cubes (0-1-valued products of x and 1 - x); operands also
+        // the variables themselves and functions that skip levels (x_i * x_j + c)
+        let mut skipping: Vec<usize> = vars.clone();
+        if !s.dead && n >= 2 {
+            for i in 0..n as usize {
+                for j in (i + 1)..n as usize {
+                    if let Some(p) = mt_arith(&mut s, "mul", vars[i], vars[j]) {
+                        if let Some(c7) = mt_const(&mut s, I64::Num(7)) {
+                            if let Some(q) = mt_arith(&mut s, "add", p, c7) {
+                                skipping.push(q);
+                            }
+                        }
+                        skipping.push(p);
+                    }
+                }
+            }
+        }
         if !s.dead {
             if let Some(one) = mt_const(&mut s, I64::Num(1)) {
                 for code in 0..3usize.pow(n) {
@@ -638,7 +707,7 @@ pub fn mtbdd(args: &Args) {
                         };
                         match mt_arith(&mut s, "mul", cube, lit) { Some(x) => cube = x, None => break }
                     }
-                    for &f in fs.iter().take(4) {
+                    for &f in fs.iter().take(4).chain(skipping.iter()) {
                         if s.dead {
                             break;
                         }
@@ -876,4 +945,108 @@ pub fn mtconc(args: &Args) {
     oxidd_core::util::verif::PERTURB.store(0, Relaxed);
     out.finish();
     write_summary(&dir, "mv-mtconc", &out, json!({"rows":cases,"nontrivial":cases,"collections":collections}));
+}
+
+/// C14 for the dynamic terminal manager: the TERMINAL capacity is the binding
+/// limit.  Variables take the terminals 0 and 1; a ballast function holds
+/// `cap - 2` further terminals only through its inner nodes; operations that
+/// need new terminals must fail with the out-of-memory error and leave every
+/// handle intact; after dropping the ballast and ONE collection the same
+/// operations must succeed (`must_ok`), since everything they need was freed.
+pub fn mtoom(args: &Args) {
+    let dir = args.get("out", "/verif/out/tmp");
+    let seed = args.num("seed", 1);
+    let thorough = args.get("tier", "quick") == "thorough";
+    let mut rng = Rng::new(seed ^ 0x0014);
+    let mut out = TraceOut::new(&dir, "mv-mtoom", 3000);
+    let mut cases = 0u64;
+    let mut failures = 0u64;
+    let caps: Vec<usize> = if thorough { (4..=12).collect() } else { vec![4, 5, 7] };
+    for &cap in &caps {
+        for variant in 0..(if thorough { 6 } else { 3 }) {
+            let n = 2u32;
+            let mref = oxidd::mtbdd::new_manager(1 << 10, cap, [1usize, 16][variant % 2], 1);
+            let mut s: MvSession<MT> = MvSession::with_manager(&mut out, mref, 16, n, "oom");
+            let vars: Vec<usize> = (0..n).filter_map(|v| mt_var(&mut s, v)).collect();
+            if vars.len() != n as usize {
+                continue;
+            }
+            // ballast: cap - 2 distinct constants below inner nodes only
+            let k = cap - 2;
+            let base = 100 + 10 * rng.below(50) as i64;
+            let vals: Vec<I64> = (0..4).map(|i| I64::Num(base + (i % k) as i64)).collect();
+            let Some(ballast) = mt_build(&mut s, &vals, &vars, n as usize) else { continue };
+            // (a second ballast function for the remaining constants, if k > 4)
+            let mut ballast2 = None;
+            if k > 4 {
+                let vals2: Vec<I64> = (0..4).map(|i| I64::Num(base + 4 + (i % (k - 4)) as i64)).collect();
+                ballast2 = mt_build(&mut s, &vals2, &vars, n as usize);
+            }
+            s.gc();
+            // operations that need 1..2 new terminals
+            let fresh = I64::Num(base + 50 + variant as i64);
+            let mut failed_ops: Vec<(&str, usize, usize)> = Vec::new();
+            cases += 1;
+            let c = mt_const(&mut s, fresh);
+            if c.is_none() {
+                failures += 1;
+            }
+            let two = mt_const(&mut s, I64::Num(2));
+            for (op, a, b) in [("add", vars[0], ballast), ("mul", ballast, ballast), ("sub", vars[1], ballast)] {
+                if s.dead {
+                    break;
+                }
+                cases += 1;
+                match mt_arith(&mut s, op, a, b) {
+                    Some(h) => s.drop_h(h),
+                    None => {
+                        failures += 1;
+                        failed_ops.push((op, a, b));
+                    }
+                }
+            }
+            if let Some(t) = two {
+                s.drop_h(t);
+            }
+            if let Some(c) = c {
+                s.drop_h(c);
+            }
+            if s.dead {
+                continue;
+            }
+            // every handle is intact after the failures
+            for a in s.live() {
+                let f = s.get(a).clone();
+                let (e, g, _) = f.graph();
+                let vt = Value::Array(catch(|| f.values(n)).unwrap_or_else(|p| vec![json!({"panic": p})]));
+                s.out.emit(json!({"ev":"mcheck","a":a,"e":e,"g":g,"vt":vt,"nc":f.node_count()}));
+            }
+            // free the terminals: drop the ballast, ONE collection, then retry with operands that
+            // need at most as many new terminals as were freed: x + c, x * c for a fresh constant
+            s.drop_h(ballast);
+            if let Some(b2) = ballast2 {
+                s.drop_h(b2);
+            }
+            s.gc();
+            let r = catch(|| s.mref.with_manager_shared(|m| MT::constant(m, fresh)));
+            let c2 = s.log("constant", &[], json!({"c": i64_json(&fresh), "must_ok": true}), r);
+            if let Some(c2) = c2 {
+                // x0 + c: terminals c and c + 1 (k >= 2 were freed, one is taken by c)
+                let r = catch(|| mt_bin("add", s.get(vars[0]), s.get(c2)));
+                let mut sc = Vec::new();
+                for (x, y) in [(I64::Num(0), fresh), (I64::Num(1), fresh)] {
+                    if let Some(z) = scalar("add", &x, &y) {
+                        sc.push(json!([i64_json(&x), i64_json(&y), i64_json(&z)]));
+                    }
+                }
+                s.log("add", &[vars[0], c2], json!({"sc": sc, "must_ok": true}), r);
+            }
+            if !s.dead {
+                s.obs();
+                s.finish();
+            }
+        }
+    }
+    out.finish();
+    write_summary(&dir, "mv-mtoom", &out, json!({"rows":cases,"nontrivial":failures}));
 }
